@@ -242,46 +242,30 @@ func newLocal(c *localCfg, f *csnet.Fixture) *localInst {
 func (li *localInst) commitHeight1() *types.Commit {
 	n, f := li.n, li.f
 	st := f.GenesisStatus()
-	p0 := f.ProposerAt(st, 0)
-	if p0 == li.c.self {
-		vk.Fatalf("local/%s: the height-2 searches need a node that does not propose height 1 round 0", li.c.name)
+	// The node under test PROPOSES height 1 round 0 itself: it is then the proposer of round 3 at height 2, which the searches
+	// (votes for rounds 0 and 1, so rounds 0..2) never reach. A block the node proposes at height 2 would carry its own
+	// height-1 precommit with a wall-clock time stamp, i.e. a different hash in every execution.
+	if f.ProposerAt(st, 0) != li.c.self {
+		vk.Fatalf("local/%s: the height-2 searches need the node that proposes height 1 round 0", li.c.name)
 	}
-	type h1 struct {
-		parts *types.PartSet
-		id    types.BlockID
-		prop  *types.Proposal
-		votes []*types.Vote
+	n.FireTimeout()
+	n.Drain()
+	var id types.BlockID
+	found := false
+	for _, m := range n.Sent {
+		if vm, ok := m.(*cs.VoteMessage); ok && vm.Vote.ValidatorIndex == li.c.self && vm.Vote.Height == 1 && vm.Vote.Type == types.VoteTypePrevote && !vm.Vote.BlockID.IsZero() {
+			id, found = vm.Vote.BlockID, true
+		}
 	}
-	var x *h1
-	if c, ok := blockCache.Load(li.c.name + "/h1"); ok {
-		x = c.(*h1)
-	} else {
-		x = &h1{}
-		var b *types.Block
-		b, x.parts = f.MakeBlock(st, csnet.NewTrivApp(f.Vals, 1), 0, nil, nil)
-		x.id = csnet.BlockID(b, x.parts)
-		x.prop = f.Proposal(p0, 1, 0, x.parts.Header(), -1, types.BlockID{})
+	if !found {
+		vk.Fatalf("local/%s: the node did not prevote its own proposal at height 1", li.c.name)
+	}
+	for _, t := range []byte{types.VoteTypePrevote, types.VoteTypePrecommit} {
 		cnt := 0
 		for j := range li.c.powers {
 			if j != li.c.self && cnt < 2 {
 				cnt++
-				x.votes = append(x.votes, f.Vote(j, 1, 0, types.VoteTypePrevote, x.id), f.Vote(j, 1, 0, types.VoteTypePrecommit, x.id))
-			}
-		}
-		blockCache.Store(li.c.name+"/h1", x)
-	}
-	n.FireTimeout()
-	n.Drain()
-	n.Deliver(&cs.ProposalMessage{Proposal: x.prop}, "env")
-	n.Drain()
-	for i := 0; i < x.parts.Total(); i++ {
-		n.Deliver(&cs.BlockPartMessage{Height: 1, Round: 0, Part: x.parts.GetPart(i)}, "env")
-		n.Drain()
-	}
-	for _, t := range []byte{types.VoteTypePrevote, types.VoteTypePrecommit} {
-		for _, v := range x.votes {
-			if v.Type == t {
-				n.Deliver(&cs.VoteMessage{Vote: v}, "env")
+				n.Deliver(&cs.VoteMessage{Vote: f.Vote(j, 1, 0, t, id)}, "env")
 				n.Drain()
 			}
 		}
@@ -291,6 +275,11 @@ func (li *localInst) commitHeight1() *types.Commit {
 	}
 	li.height = 2
 	li.st = n.VerifStatus()
+	for r := 0; r <= 2; r++ {
+		if f.ProposerAt(li.st, r) == li.c.self {
+			vk.Fatalf("local/%s: the node under test proposes height 2 round %d; its own block is not reproducible", li.c.name, r)
+		}
+	}
 	li.sentSeen = len(n.Sent)
 	li.commits = len(n.App.Commits)
 	li.baseCom = len(n.App.Commits)
@@ -797,7 +786,7 @@ func localConfigs(r *vk.Run) []*localCfg {
 		late: true, depth: r.Pick(4, 6), maxSt: r.Pick(60000, 1500000), prefix: prefixes[2].pre, expect: prefixes[2].expect})
 	// height 2: everything a node carries across a height change (lock, valid block, vote sets, last commit, proposer
 	// rotation, timeouts of the old height still in flight) after an honest height 1
-	out = append(out, &localCfg{name: fmt.Sprintf("eq4/self%d(non-proposer-of-h1)/sym/height2+late-timeouts/init", other), powers: eq, self: other, rounds: 2, sym: true,
+	out = append(out, &localCfg{name: fmt.Sprintf("eq4/self%d(proposer-of-h1)/sym/height2+late-timeouts/init", p0), powers: eq, self: p0, rounds: 2, sym: true,
 		h2: true, late: true, depth: r.Pick(4, 6), maxSt: r.Pick(60000, 1500000), expect: "R0 S1 lock=- | "})
 	if !r.Quick() {
 		// the node is the proposer of round 0 / round 1 (its own block O enters the alphabet implicitly)
